@@ -150,7 +150,46 @@ def r3(ctx):
                 ctx.check(bool(closes), "C16.R3", x.path, "actor-closes-before-remove", "remove_replica is dominated by a close of the document", t2["sp"])
     if not found:
         raise mir.AnchorMissing("actor no longer calls Store::remove_replica")
-    ctx.floor("C16.R3", 2)
+    # the guard is only as good as the bookkeeping behind it: every way the actor (or a direct user)
+    # obtains a document's ReplicaInfo from the store marks the document open in `open_replicas`
+    # on its success path
+    from .common import success_sites
+    loaders = set()
+    for x in f.bodies.values():
+        if x.path.startswith("actor::Actor::open") or x.path == "store::fs::Store::open_replica":
+            for bi2, t2 in x.calls():
+                for pth in mir.callee_paths(t2):
+                    if pth.startswith("store::fs::Store::") and pth in f.bodies and pth.split("::")[-1] in ("load_replica_info", "open_replica", "new_replica"):
+                        if x.path.startswith("actor::"):
+                            loaders.add(pth)
+    if not loaders:
+        raise mir.AnchorMissing("the actor's open path calls no Store loader (load_replica_info/open_replica)")
+
+    def marks_open(path, depth=2):
+        lb = f.bodies[path]
+        ctx.touch(lb)
+        marks = []
+        for bi2, t2 in lb.calls():
+            if t2["f"].get("name") == "insert" and t2["a"] and any("open_replicas" in mir.field_path(o) for o in trace(lb, t2["a"][0])):
+                marks.append(bi2)
+            elif depth > 0:
+                for pth in mir.callee_paths(t2):
+                    if pth.startswith("store::fs::Store::") and pth in f.bodies and pth != path and marks_open(pth, depth - 1):
+                        oc = call_outcomes(lb, bi2)
+                        marks.append(bi2)
+        if not marks:
+            return False
+        succ = [sb for sb, how, _ in success_sites(lb)]
+        if not succ:
+            return False
+        region = lb.reach_from_edges([0], avoid=set(marks))
+        return not any(sb in region for sb in succ)
+    for pth in sorted(loaders):
+        ok = marks_open(pth)
+        ctx.check(ok, "C16.R3", pth, "open-path-marks-document-open",
+                  "every success return passes open_replicas.insert(namespace)" if ok else
+                  "the store hands out the document's ReplicaInfo to the actor without recording it in open_replicas: remove_replica's `still open` guard no longer sees documents opened through the actor", f.bodies[pth].sp)
+    ctx.floor("C16.R3", 3)
 
 
 def discarded_results(f, body, types):
